@@ -596,16 +596,10 @@ class ModelFeatures:
             return False
 
     def _subset_transits(self, mfl):
-        lhs_counts = set([c for t in self.transits for c in t.counts])
-        lhs_depot = set([d for t in self.transits for d in t.eval.depot])
-
-        rhs_counts = set([c for t in mfl.transits for c in t.counts])
-        rhs_depot = set([d for t in mfl.transits for d in t.eval.depot])
-        # FIXME : Need to compare counts per depot individually when comparing two
-        # search spaces (Currenty working for model vs search space)
-        return all([c in lhs_counts for c in rhs_counts]) and all(
-            [d in lhs_depot for d in rhs_depot]
-        )
+        # NOTE : Counts are compared per depot option
+        lhs = set((c, d) for t in self.transits for c in t.counts for d in t.eval.depot)
+        rhs = set((c, d) for t in mfl.transits for c in t.counts for d in t.eval.depot)
+        return rhs.issubset(lhs)
 
     def _subset_covariates(self, mfl, model):
         lhs = defaultdict(list)
